@@ -330,6 +330,20 @@ def hand_format(name: str, rows: list, rng):
                     r[key] = r[key] * (rng.choice([0.5, 0.9]) / max(tot, 1e-9))
             out.append(r)
         return out, "hand:pctsp_low_prize"
+    if name == "svrp":
+        # discrete skill levels (technicians stay in ascending order, as the generator documents): a customer may
+        # need exactly the level of a technician ("greater or equal" is enough), and technicians may tie
+        out = []
+        for r in rows:
+            r = {k: v.clone() for k, v in r.items()}
+            K, n = r["techs"].shape[0], r["skills"].shape[0]
+            techs = sorted(float(rng.randint(1, 5)) for _ in range(K))
+            top = techs[-1]
+            skills = [float(rng.choice(techs)) if rng.random() < 0.6 else float(rng.randint(1, int(top))) for _ in range(n)]
+            r["techs"] = torch.tensor(techs, dtype=r["techs"].dtype).reshape(r["techs"].shape)
+            r["skills"] = torch.tensor(skills, dtype=r["skills"].dtype).reshape(r["skills"].shape)
+            out.append(r)
+        return out, "hand:svrp_discrete_levels"
     if name == "smtwtp":
         # benchmark-style integer data (OR-library wt files): integer processing times, weights and due dates;
         # a job may take no time at all (the generator's range [0, max) includes 0).  Entry 0 stays the dummy.
